@@ -30,7 +30,9 @@ LEVEL_TEXT = "Seeded exploration of timeout/cancel instants against step complet
 LEVEL_NOTE = "Trusted: simulator loop/clock, recording adapter."
 
 CFG_A = {"driver": "result", "p_retry": 20, "p_fail": 10, "p_cancel": 35, "timeouts": [None, 1, 2, 3, 5, 8], "p_stream": 30,
-         "p_ret_none": 10, "fan_max": 3, "p_stall": 20, "stall_grid": [1, 2, 3, 6]}
+         "p_ret_none": 10, "fan_max": 3, "p_stall": 20, "stall_grid": [1, 2, 3, 6],
+         # waits: several waiter timers (the 2000 s default, short ones that are answered or expire) next to the workflow timeout
+         "p_wait": 25, "wait_timeouts": ["default", "default", 3, 6, None]}
 CFG_B = {"driver": "finish", "grid": [0, 1, 1, 2, 3]}
 CANCEL_WAIT = 5.0  # WorkflowHandler.cancel_run(timeout=5.0) default
 TERMINAL = {"StopEvent", "Stop1", "WorkflowFailedEvent", "WorkflowCancelledEvent", "WorkflowTimedOutEvent"}
